@@ -30,7 +30,7 @@ var hostileLinkBits = []string{
 func hostileLink(r *rand.Rand) string { return hostileLinkBits[r.Intn(len(hostileLinkBits))] }
 
 func decorateForHook(g *world.Generated, r *rand.Rand) {
-	mts := []any{"image/png", "video/mp4", "audio/ogg", "application/x-%url", "text/html; charset=utf-8", "garbage", "", nil, 5.0, "IMAGE/PNG", "a/b/c"}
+	mts := []any{"image/png", "video/mp4", "audio/ogg", "application/x-%url", "image/%url", "%url/%subtype", "%mimetype/%supertype", "video/%mimetype", "%supertype/%url", "text/html; charset=utf-8", "garbage", "", nil, 5.0, "IMAGE/PNG", "a/b/c"}
 	for _, p := range g.Posts {
 		if r.Intn(2) == 0 {
 			kind := []string{"Link", "Video", "Image", "Audio", "Document"}[r.Intn(5)]
